@@ -260,6 +260,7 @@ func Run(tier string, seed int64, outDir string) *common.Meta {
 
 	// ---- separate processes ----
 	cliStream(meta, tier, genDir, s1, cliRuns)
+	denseStream(meta, tier, seed, outDir, s1)
 	analysisStream(meta, tier, outDir)
 	testVariantStream(meta, tier, outDir)
 
